@@ -135,6 +135,43 @@ theorem allDownOf_mem_iff_parents {h : Hist} {o : LoadOpts} {m : LMap} (hl : loa
     have : i ∉ m1.ids := by rw [hids1]; exact hi
     simp [hnone, allDownOf_nil m1 i this]
 
+/-- the down-revisions of the loaded map are the `down_revision` entries written in the files -/
+theorem downOf_eq_downParents {h : Hist} {o : LoadOpts} {m : LMap} (hl : load h o = .ok m)
+    (hu : (h.map (·.id)).Nodup) (i : Id) : m.downOf i = downParents h i := by
+  obtain ⟨m1, _, h1, _, _, _, _, hids, hdown, _⟩ := load_graph hl
+  obtain ⟨lk, hlk, hrevs, hlkv, hchk, hids1, hget⟩ := phase1_graph h1 hu
+  rw [hdown i]
+  unfold downParents revOf
+  by_cases hi : i ∈ h.map (·.id)
+  · obtain ⟨r, hr, e⟩ := List.mem_map.mp hi
+    subst e
+    have hfind : h.find? (·.id == r.id) = some r := by
+      have key : ∀ (l : List Rev), (l.map (·.id)).Nodup → r ∈ l → l.find? (·.id == r.id) = some r := by
+        intro l
+        induction l with
+        | nil => intro _ h'; simp at h'
+        | cons x rest ih =>
+          intro hn hx
+          simp only [List.map_cons, List.nodup_cons] at hn
+          rcases List.mem_cons.mp hx with e | hx'
+          · subst e; simp
+          · have hne : x.id ≠ r.id := by
+              intro e; apply hn.1; rw [e]; exact List.mem_map.mpr ⟨r, hx', rfl⟩
+            simp [hne, ih hn.2 hx']
+      exact key h hu hr
+    simp [hfind, LMap.downOf, hget r hr, p1Rev]
+  · have hnone : h.find? (·.id == i) = none := by
+      rw [List.find?_eq_none]; intro r hr; simp; intro e; exact hi (List.mem_map.mpr ⟨r, hr, e⟩)
+    have hni : i ∉ m1.ids := by rw [hids1]; exact hi
+    have : m1.get? i = none := by
+      unfold LMap.get?
+      rw [List.find?_eq_none]
+      intro r hr
+      simp only [beq_iff_eq]
+      intro e
+      exact hni (List.mem_map.mpr ⟨r, hr, e⟩)
+    simp [hnone, LMap.downOf, this]
+
 /-- reachability in the loaded map is reachability in the history as written -/
 theorem reach_allDown_iff_parents {h : Hist} {o : LoadOpts} {m : LMap} (hl : load h o = .ok m)
     (hu : (h.map (·.id)).Nodup) (x y : Id) : Reach m.allDownOf x y ↔ Reach (parents h) x y :=
